@@ -30,6 +30,14 @@ def child(job, wfd):
         try:
             # optional job key "paths": sub-directories of the project to build (relative); default = the whole project
             paths = [os.path.join(job["root"], p) for p in job["paths"]] if job.get("paths") else [job["root"]]
+            if job.get("tasks_from"):
+                # optional job key "tasks_from": {"module": name, "names": [function names…], "with_paths": bool} — the functions are
+                # imported from a module of the project and handed to build(tasks=[…]) as objects (a name may occur twice)
+                import importlib
+                mod = importlib.import_module(job["tasks_from"]["module"])
+                kw["tasks"] = [getattr(mod, n) for n in job["tasks_from"]["names"]]
+                if not job["tasks_from"].get("with_paths"):
+                    paths = ()
             session = pytask.build(paths=paths, **kw)
         except BaseException as e:  # noqa: BLE001
             res["raised"] = type(e).__name__
